@@ -19,6 +19,7 @@ func seqScenario(cfg *config) *mc.Scenario {
 		// a letter are never forced (bound 0).
 		Bounds:   map[string]int{"quick": 0, "thorough": 0},
 		MaxSteps: 20000,
+		Shards:   cfg.shards,
 		Build: func(x *mc.X) {
 			tier := os.Getenv("MC_TIER")
 			if tier == "" {
